@@ -17,7 +17,8 @@ ANCHORS = ["itertools.py"]
 RULE = ("2..4 consumer tasks each advancing one tee child of an instrumented class-based source under a controlled "
         "scheduler: ALL interleavings (stateless DFS over every choice point, re-executing from scratch) for the "
         "small configurations, seeded random and PCT priority schedules beyond; source length 0..4 (retention class: "
-        "10..16), source suspending 0..2 times per item (only with a lock), consumers suspending between items, any "
+        "10..16), source suspending 0..2 times per item (only with a lock), locks that are themselves a scheduling point "
+        "before acquiring and/or after releasing, consumers suspending between items, any "
         "subset of children closed after j items, one consumer cancelled at each of its suspension points. Online "
         "monitors after EVERY step: source never advanced by two tasks at once when locked; items that every live "
         "child already yielded are dead (weak references) except one pinned frame local per child. At the end: every "
@@ -65,6 +66,8 @@ def cases(tier, seed, shard, nshards):
         # cancellation of one consumer (enumerated over its suspension points inside run_case)
         case["cancel_task"] = rng.randrange(case["n"]) if rng.random() < 0.4 else None
         case["flav"] = "async_class"
+        # locks that are a scheduling point before acquiring / after having released
+        case["lock_susp"] = rng.choice([[0, 0], [0, 0], [1, 0], [0, 1], [1, 1]]) if case["lock"] else [0, 0]
         case["seed"] = rng.randrange(1 << 30)
         yield case
 
@@ -79,7 +82,8 @@ def execute(case, choose, cancel_at=None):
     st.drop = True
     del items
     src = make_source(st, case["flav"])
-    lock = VLock("tee") if case["lock"] else None
+    lsusp = case.get("lock_susp", [0, 0])
+    lock = VLock("tee", susp_enter=lsusp[0], susp_exit=lsusp[1]) if case["lock"] else None
     handle = A.tee(src, n, lock=lock) if lock is not None else A.tee(src, n)
     children = list(handle)
     recs = [[] for _ in range(n)]
